@@ -7,7 +7,7 @@
 (*               MakeOutput                                                *)
 (*   hash_based  CheckInput, HbBuild, HbLookup, MakeOutput                 *)
 (*   kdtree      CheckInput, KdEncodeBall, KdFilter, MakeOutput            *)
-(*   database    ... MakeOutput, NewLookup(q), SdLookup | HbLookup, ...    *)
+(*   database    ... MakeOutput, NewLookup(q, k, mode), SdLookup | HbLookup, ...    *)
 (*                                                                         *)
 (* and the reference semantics Truth(inp) the properties C01, C03, C04,    *)
 (* C07, C10 and C14 talk about.  Positions are 1-based here (0-based in    *)
@@ -265,10 +265,14 @@ MakeOutput ==
 (* A database object (SymdelDB / LookupDB) is queried again with another   *)
 (* query list: the index is the one built before.                          *)
 (***************************************************************************)
-\* (LookupDB.lookup takes max_edits per lookup; SymdelDB fixes it when the index is built)
-NewLookup(q, k2) == /\ phase = "done" /\ inp.two /\ inp.engine \in {"symdel", "hash"}
+\* (LookupDB.lookup takes max_edits per lookup; SymdelDB fixes it when the index is built.  The distance mode is an
+\*  argument of EVERY lookup on both objects - custom_distance=None / "hamming" - and the index does not depend on it:
+\*  one object serves Levenshtein and Hamming lookups in any order, each answered as by a fresh one-shot search.)
+NewLookup(q, k2, m2) ==
+                /\ phase = "done" /\ inp.two /\ inp.engine \in {"symdel", "hash"}
                 /\ (inp.engine = "symdel" => k2 = inp.k)
-                /\ inp' = [inp EXCEPT !.seqs2 = q, !.k = k2]
+                /\ (m2 # inp.mode => (m2 \in {"lev", "hamming"} /\ inp.mode \in {"lev", "hamming"}))
+                /\ inp' = [inp EXCEPT !.seqs2 = q, !.k = k2, !.mode = m2]
                 /\ phase' = "built"
                 /\ cand' = {} /\ trip' = {} /\ ntrip' = 0 /\ dense' = <<>>
                 /\ nlook' = nlook + 1
@@ -276,7 +280,7 @@ NewLookup(q, k2) == /\ phase = "done" /\ inp.two /\ inp.engine \in {"symdel", "h
 
 Next == \/ CheckInput \/ SdBuild \/ SdBuilt \/ SdSelfJoin \/ SdLookup
         \/ HbBuild \/ HbLookup \/ KdEncodeBall \/ KdFilter \/ MakeOutput
-        \/ (nlook < MaxLookups /\ \E q \in ListsUpTo(MaxN2) : \E k2 \in Ks : NewLookup(q, k2))
+        \/ (nlook < MaxLookups /\ \E q \in ListsUpTo(MaxN2) : \E k2 \in Ks : \E m2 \in Modes : NewLookup(q, k2, m2))
 
 Spec == Init /\ [][Next]_vars
 
